@@ -14,7 +14,12 @@
 (*   - evaluates the property verdict V_C10 (Cache.tla) on the REAL        *)
 (*     observation, with the very operator used for the design check;      *)
 (*   - folds the model (ApplyStep) over the recorded history and reports   *)
-(*     whether the real observation is the one the model predicts.         *)
+(*     whether the real observation is the one the model predicts;         *)
+(*   - for a history with a pool step that requests examples twice ("pft", *)
+(*     "pfd") evaluates the RELAXED verdict V_C10x(.., TRUE): "ok" when    *)
+(*     everything that is wrong with the execution is the check-then-act   *)
+(*     race S21 on examples that step requested twice (harness/findings.py *)
+(*     match_cache; never used to decide ok / viol).                       *)
 (* Records are independent: the behaviour is a binary tree over the record *)
 (* indices so that TLC's workers validate records in parallel.             *)
 (***************************************************************************)
@@ -23,7 +28,7 @@ EXTENDS Integers, Sequences, TLC, Json, IOUtils
 \* the enumeration constants of Cache.tla are irrelevant here
 Pars == {}  Depth == 0  IdxGrid == {}  KeyProbe == {}  SliceStarts == {}
 SubIdx == {}  UpIdx == {}  FreezeVals == {}  MaxInst == 0  PfForms == {}
-MaxUp == 0  MaxPf == 0
+PftForms == {}  MaxUp == 0  MaxPf == 0
 VARIABLES par, st, hist, mobs
 C == INSTANCE Cache
 
@@ -44,5 +49,8 @@ Judge ==
          [id |-> rec.id,
           C10 |-> C!V_C10(rec.par, rec.hist, rec.obs),
           mv  |-> C!V_C10(rec.par, rec.hist, m),
+          s21 |-> IF \E t \in 1..Len(rec.hist) : rec.hist[t].op \in C!RaceOps
+                  THEN C!V_C10x(rec.par, rec.hist, rec.obs, TRUE)
+                  ELSE <<"na", "no-pool-step-with-repeats">>,
           conf |-> C!ConformsAt(rec.obs, m)])>>)
 =============================================================================
